@@ -225,9 +225,7 @@ where
   let header = decoder.pull().map_err(Into::into)?;
   match header {
     // RFC 8949 3.3: the two-byte form (0xf8 n) is only well-formed for n >= 32
-    Header::Simple(s) if s < 32 && decoder.offset() - start > 1 => {
-      Err(DecodeError::Syntax(start))
-    }
+    Header::Simple(s) if s < 32 && decoder.offset() - start > 1 => Err(DecodeError::Syntax(start)),
     Header::Positive(v) => Ok(Value::Integer(Integer::from(v))),
     Header::Negative(v) => {
       // ciborium-ll stores negative as the raw value; the actual number is -1 - v
